@@ -5,6 +5,11 @@ import json, sys
 TECH = "bounded-exhaustive explicit-state exploration of the real code (own explorer / enumerators), "
 
 CHECKS = {
+ "C13": dict(
+   text="Two SQLite databases are driven in lock-step: one executes sea-query's rendering, the other an independently written explicit reference rendering of the same declaration; after every statement the engines' own catalogues (pragma table_xinfo / index_list / index_xinfo / foreign_key_list, sqlite_master, declared types reduced to affinity by SQLite's documented rule, which is itself checked against typeof() probes on every run) and the outcomes of behavioural probes (default row, violating / duplicate inserts) must be identical, and each abstract type must carry its intended affinity. Spaces: (1) single-column tables: 37 ColumnType/parameter combinations x every permutation of every subset of size <= 3 (quick) / 4 (thorough, 4 representative types) of 12 column specifications; (2) 756 multi-column tables: table-level primary key (single / composite), unique index (with direction), foreign key with all 36 action pairs, check, IF NOT EXISTS; (3) every sequence of 3 (quick) / 4 (thorough) follow-up statements over a 17-statement menu (ADD / RENAME / DROP COLUMN, RENAME TABLE, CREATE [UNIQUE] INDEX [IF NOT EXISTS] [partial] [direction], DROP INDEX [IF EXISTS], DROP TABLE [IF EXISTS]) - a state machine whose state is the real catalogue. Run in the default and the option-sqlite-exact-column-type build.",
+   note="Trusted: the explicit reference DDL renderer and the table of intended affinities (integer types -> INTEGER; float/double/decimal/money -> REAL; char/string/text/date-time/json/uuid/enum -> TEXT; binary/blob -> BLOB; boolean -> NUMERIC or INTEGER). Declarations whose REFERENCE the engine rejects (contradictory specifications, AUTOINCREMENT on a non-INTEGER key) are out of domain and counted.",
+   technique=TECH+"exhaustive enumeration of declarations and of statement sequences, oracle = differential catalogue comparison on two real SQLite engines",
+   ref="3.13"),
  "C15": dict(
    text="(a) BFS over builder-call histories of the real SelectStatement (QModel menu + named WINDOW, window-name items, TABLESAMPLE, index hints, DISTINCT ON, empty condition groups; every field of the struct is reachable) to depth 3 (quick) / 4 (thorough); in EVERY reached state: take() (result == and Debug-equal to the statement before, identical rendering on 3 backends, builder left == SelectStatement::new()), clone independence under every enabled op, and clear_selects / from_clear / reset_limit / reset_offset / clear_order_by each compared with the statement rebuilt from scratch from the history without that clause's calls. (b) clear_order_by on UPDATE / DELETE / WindowStatement over all subsets of their builder calls. (c) take() and Clone of TableCreate / Alter / Drop / Rename / Truncate, IndexCreate, ForeignKeyCreate, TableForeignKey, TableIndex, ColumnDef, WindowStatement (and Clone of InsertStatement) over ALL subsets of 1..14 builder calls each.",
    note="Trusted: `rebuilt from scratch` uses the same real builder calls (differential: state reached from the initial state vs state reached from elsewhere). Argument values are fixed per op; NaN values are not used.",
